@@ -508,3 +508,437 @@ Proof.
         destruct Hs as [Hs|Hs]; [discriminate|]; cbn [rep_small] in Hs; apply N.ltb_lt in Hs;
         rewrite (s_uint_ok _ _ _ E1), (s_gdelta_ok _ _ _ E2); cbn [view_rep]; rewrite lim31_u64 by exact Hs; reflexivity] ].
 Qed.
+
+(* ================================================================== modal variables: strict decoder vs reader *)
+Definition orel {A} (o : option A) (v : A) : Prop := match o with Some a => v = a | None => True end.
+
+Record modal_rel (m : modal) (q : rmodal) : Prop := mkMR {
+  mr_abs : r_abs q = m_abs m;
+  mr_rep : orep_rel (m_rep m) (r_rep q);
+  mr_layer : orel (g_layer (m_g m)) (r_layer q);
+  mr_dtype : orel (g_dtype (m_g m)) (r_dtype q);
+  mr_gpos : r_gpos q = (g_x (m_g m), g_y (m_g m));
+  mr_w : orel (g_w (m_g m)) (r_w q);
+  mr_h : orel (g_h (m_g m)) (r_h q);
+  mr_poly : orel (g_poly (m_g m)) (r_poly q);
+  mr_path : orel (g_path (m_g m)) (r_path q);
+  mr_hw : orel (g_hw (m_g m)) (r_hw q);
+  mr_exs : orel (g_exs (m_g m)) (r_exs q);
+  mr_exe : orel (g_exe (m_g m)) (r_exe q);
+  mr_ctype : orel (g_ctype (m_g m)) (r_ctype q);
+  mr_rad : orel (g_rad (m_g m)) (r_rad q);
+  mr_tstr : match t_str (m_t m) with Some s => r_text q = Some s | None => True end;
+  mr_tlayer : orel (t_layer (m_t m)) (r_tlayer q);
+  mr_ttype : orel (t_type (m_t m)) (r_ttype q);
+  mr_tpos : r_tpos q = (t_x (m_t m), t_y (m_t m));
+  mr_pcell : match p_cell (m_p m) with Some c => r_pcell q = Some c | None => True end;
+  mr_ppos : r_ppos q = (p_x (m_p m), p_y (m_p m));
+  mr_pname : match m_pname m with Some ns => r_pname q = Some (fst ns) | None => True end;
+  mr_pvals : match m_pvals m with Some vs => r_pvals q = map view_val vs | None => True end
+}.
+
+Lemma tb_bit i k : tb i k = bit i k.
+Proof. reflexivity. Qed.
+
+(* ---- fields *)
+Lemma fld_u32_ok b mv cur bs v r :
+  fld b rd_u32 mv bs = Some (v, r) -> orel mv cur -> f_u32 b cur (mkS bs None) = (v, mkS r None).
+Proof.
+  unfold fld, f_u32. destruct b.
+  - unfold rd_u32. destruct (rd_uint bs) as [[v0 r0]|] eqn:E; cbn [obnd]; [|discriminate].
+    destruct (v0 <? 4294967296) eqn:Ev; [|discriminate]. intros [= <- <-] _.
+    rewrite (s_uint_ok _ _ _ E). unfold u32. rewrite N.mod_small by (apply N.ltb_lt; exact Ev). reflexivity.
+  - destruct mv as [a|]; [|discriminate]. intros [= <- <-] H. cbn in H. subst. reflexivity.
+Qed.
+Lemma fld_uint_ok b mv cur bs v r :
+  fld b rd_uint mv bs = Some (v, r) -> orel mv cur -> f_uint b cur (mkS bs None) = (v, mkS r None).
+Proof.
+  unfold fld, f_uint. destruct b.
+  - intros H _. apply s_uint_ok. exact H.
+  - destruct mv as [a|]; [|discriminate]. intros [= <- <-] H. cbn in H. subst. reflexivity.
+Qed.
+Lemma pos_fld_ok b a cur bs v r :
+  pos_fld b a cur bs = Some (v, r) -> f_pos b a cur (mkS bs None) = (v, mkS r None).
+Proof.
+  unfold pos_fld, f_pos. destruct b.
+  - destruct (rd_int bs) as [[d r0]|] eqn:E; cbn [obnd]; [|discriminate]. intros [= <- <-].
+    rewrite (s_int_ok _ _ _ E). reflexivity.
+  - intros [= <- <-]. reflexivity.
+Qed.
+Lemma f_xy_ok bx by_ a cur bs x r1 y r2 :
+  pos_fld bx a (fst cur) bs = Some (x, r1) -> pos_fld by_ a (snd cur) r1 = Some (y, r2) ->
+  f_xy bx by_ a cur (mkS bs None) = ((x, y), mkS r2 None).
+Proof. intros H1 H2. unfold f_xy. rewrite (pos_fld_ok _ _ _ _ _ _ H1), (pos_fld_ok _ _ _ _ _ _ H2). reflexivity. Qed.
+Lemma rep_fld_ok b mr cur bs er mr' r :
+  cov_rep_fld b mr bs = Some (er, mr', r) -> orep_rel mr cur ->
+  exists cur', f_rep b cur (mkS bs None) = ROk (view_orep er, cur') (mkS r None) /\ orep_rel mr' cur'.
+Proof.
+  unfold cov_rep_fld, f_rep. destruct b.
+  - destruct (cov_rep mr bs) as [[r0 bs1]|] eqn:E; cbn [obnd]; [|discriminate]. intros [= <- <- <-] H.
+    exists (view_rep r0). unfold rbind. rewrite (s_rep_ok _ _ _ _ _ E H). split; reflexivity.
+  - intros [= <- <- <-] H. exists cur. split; [reflexivity|exact H].
+Qed.
+
+Lemma f_plist_ok b closed mv cur bs v r :
+  fld b (cov_plist closed) mv bs = Some (v, r) -> orel mv cur -> f_plist b closed cur (mkS bs None) = ROk v (mkS r None).
+Proof.
+  unfold fld, f_plist. destruct b.
+  - intros H _. apply s_plist_ok. exact H.
+  - destruct mv as [a|]; [|discriminate]. intros [= <- <-] H. cbn in H. subst. reflexivity.
+Qed.
+Lemma f_delta_ok (absent : bool) bs v r :
+  (if absent then Some (0%Z, bs) else rd_int bs) = Some (v, r) -> f_delta absent (mkS bs None) = ROk v (mkS r None).
+Proof.
+  unfold f_delta. destruct absent.
+  - intros [= <- <-]. reflexivity.
+  - intros H. unfold lift. rewrite (s_int_ok _ _ _ H). reflexivity.
+Qed.
+Lemma f_nref_ok byn bs v r : rd_nref byn bs = Some (v, r) -> f_nref byn (mkS bs None) = ROk v (mkS r None).
+Proof.
+  unfold rd_nref, f_nref. destruct byn.
+  - destruct (rd_uint bs) as [[n r0]|] eqn:E; cbn [obnd]; [|discriminate]. intros [= <- <-].
+    unfold lift. rewrite (s_uint_ok _ _ _ E). reflexivity.
+  - destruct (rd_string bs) as [[str r0]|] eqn:E; cbn [obnd]; [|discriminate]. intros [= <- <-].
+    unfold rbind. rewrite (s_string_ok true _ _ _ E). reflexivity.
+Qed.
+Definition oprel {A} (o : option A) (cur : option A) : Prop := match o with Some a => cur = Some a | None => True end.
+Lemma f_name_ok b byn mv cur bs v r :
+  fld b (rd_nref byn) mv bs = Some (v, r) -> oprel mv cur -> f_name b byn cur (mkS bs None) = ROk (v, Some v) (mkS r None).
+Proof.
+  unfold fld, f_name. destruct b.
+  - intros H _. unfold rbind. rewrite (f_nref_ok _ _ _ _ H). reflexivity.
+  - destruct mv as [a|]; [|discriminate]. intros [= <- <-] H. cbn in H. subst. reflexivity.
+Qed.
+Lemma f_ctype_ok b mv cur bs v r :
+  fld b rd_byte mv bs = Some (v, r) -> orel mv cur -> f_ctype b cur (mkS bs None) = ROk v (mkS r None).
+Proof.
+  unfold fld, f_ctype. destruct b.
+  - destruct bs as [|b0 t]; cbn [rd_byte]; [discriminate|]. intros [= <- <-] _. reflexivity.
+  - destruct mv as [a|]; [|discriminate]. intros [= <- <-] H. cbn in H. subst. reflexivity.
+Qed.
+
+(* the strict decoder refines: dropping the guards *)
+Lemma rd_u32_uint bs v r : rd_u32 bs = Some (v, r) -> rd_uint bs = Some (v, r).
+Proof. unfold rd_u32. destruct (rd_uint bs) as [[v0 r0]|]; cbn [obnd]; [|discriminate]. destruct (v0 <? 4294967296); congruence. Qed.
+Lemma fld_mono {A} b (rd1 rd2 : list N -> option (A * list N)) mv bs x :
+  (forall bs y, rd1 bs = Some y -> rd2 bs = Some y) -> fld b rd1 mv bs = Some x -> fld b rd2 mv bs = Some x.
+Proof. intros H. unfold fld. destruct b; [apply H|auto]. Qed.
+Lemma cov_rep_rd mr bs x : cov_rep mr bs = Some x -> rd_rep mr bs = Some x.
+Proof.
+  unfold cov_rep. destruct (small1 bs); [|discriminate]. destruct (rd_rep mr bs) as [[r rest]|]; cbn [obnd]; [|discriminate].
+  destruct (match bs with 0 :: _ => true | _ => rep_small r end); congruence.
+Qed.
+Lemma cov_rep_fld_rd b mr bs x : cov_rep_fld b mr bs = Some x -> rep_fld b mr bs = Some x.
+Proof.
+  unfold cov_rep_fld, rep_fld. destruct b; [|auto]. destruct (cov_rep mr bs) as [[r bs1]|] eqn:E; cbn [obnd]; [|discriminate].
+  rewrite (cov_rep_rd _ _ _ E). auto.
+Qed.
+Lemma cov_plist_rd c bs x : cov_plist c bs = Some x -> rd_plist c bs = Some x.
+Proof.
+  unfold cov_plist. destruct (small1 bs); [|discriminate]. destruct (rd_plist c bs) as [[p rest]|]; cbn [obnd]; [|discriminate].
+  destruct (N.of_nat (length p) <? lim31); congruence.
+Qed.
+Lemma cov_real_rd bs x : cov_real bs = Some x -> rd_real bs = Some x.
+Proof. unfold cov_real. destruct (small1 bs); [auto|discriminate]. Qed.
+Lemma rd_byte_uint bs b r : rd_byte bs = Some (b, r) -> b < 128 -> rd_uint bs = Some (b, r).
+Proof. destruct bs as [|b0 t]; cbn; [discriminate|]. intros [= <- <-] H. apply rd_uint_small1. exact H. Qed.
+
+(* ================================================================== per-record lemmas *)
+(* the element as the reader holds it before END: names still references, `found` not yet computed *)
+Definition welem (e : element) : relem := view_elem (fun r => r) (fun _ => false) e.
+
+Ltac inv1 H :=
+  match type of H with
+  | obnd ?x _ = Some _ =>
+      let E := fresh "E" in
+      destruct x as [[? ?]|] eqn:E; cbn [obnd] in H; [|discriminate H]
+  end.
+Ltac inv_triple H :=
+  match type of H with
+  | obnd ?x _ = Some _ =>
+      let E := fresh "E" in
+      destruct x as [[[? ?] ?]|] eqn:E; cbn [obnd] in H; [|discriminate H]
+  end.
+
+Lemma with_geom_rel m q l d x y ow oh w h mr cur' :
+  modal_rel m q -> orep_rel mr cur' -> orel ow w -> orel oh h ->
+  modal_rel (set_g m (mkG (Some l) (Some d) x y ow oh (g_poly (m_g m)) (g_path (m_g m)) (g_hw (m_g m))
+                          (g_exs (m_g m)) (g_exe (m_g m)) (g_ctype (m_g m)) (g_rad (m_g m))) mr)
+            (with_geom q l d (x, y) w h cur').
+Proof. intros [] Hr Hw Hh. constructor; cbn; auto. Qed.
+
+Lemma rect_points_eq x y w h :
+  rect_points (x, y) w h = map (padd (x, y)) [ (0, 0)%Z; (Z.of_N w, 0%Z); (Z.of_N w, Z.of_N h); (0%Z, Z.of_N h) ].
+Proof. unfold rect_points, padd. cbn [map fst snd]. rewrite !Z.add_0_r. reflexivity. Qed.
+
+Lemma rd_rectangle_ok m q info bs e m' bs' :
+  modal_rel m q -> cov_rectangle m (info :: bs) = Some (e, m', bs') ->
+  exists q', m_rectangle q info (mkS bs None) = ROk (welem e, q') (mkS bs' None) /\ modal_rel m' q'.
+Proof.
+  intros R H. unfold cov_rectangle in H. cbn [rd_byte obnd] in H.
+  inv1 H. inv1 H. inv1 H. destruct (bit info 7 && bit info 5) eqn:E75; [discriminate|].
+  inv1 H. inv1 H. inv1 H. inv_triple H. injection H as <- <- <-.
+  destruct (rep_fld_ok _ _ _ _ _ _ _ E5 (mr_rep _ _ R)) as (cur' & Hrep & Hrel).
+  exists (with_geom q n n0 (z, z0) n1 n2 cur'). split.
+  - unfold m_rectangle, rbind, lift, rret, tb. unfold bit in *.
+    rewrite (fld_u32_ok _ _ _ _ _ _ E (mr_layer _ _ R)). cbv beta iota.
+    rewrite (fld_u32_ok _ _ _ _ _ _ E0 (mr_dtype _ _ R)). cbv beta iota.
+    rewrite (fld_uint_ok _ _ _ _ _ _ E1 (mr_w _ _ R)). cbv beta iota.
+    assert (Hh : f_uint (N.testbit info 5) (if N.testbit info 7 then n1 else r_h q) (mkS l1 None) = (n2, mkS l2 None)).
+    { destruct (N.testbit info 7) eqn:B7.
+      - cbn [andb] in E75. rewrite E75. injection E2 as <- <-. reflexivity.
+      - exact (fld_uint_ok _ _ _ _ _ _ E2 (mr_h _ _ R)). }
+    rewrite Hh. cbv beta iota.
+    rewrite (mr_gpos _ _ R), (mr_abs _ _ R). rewrite (f_xy_ok _ _ _ (g_x (m_g m), g_y (m_g m)) _ _ _ _ _ E3 E4). cbv beta iota.
+    rewrite Hrep. cbv beta iota. unfold welem. cbn [view_elem elem_points]. rewrite <- rect_points_eq. reflexivity.
+  - apply with_geom_rel; cbn; auto.
+Qed.
+
+(* one field of the reader's record function, rewritten with the matching step of the strict decoder *)
+Ltac fstep R :=
+  cbv beta iota;
+  match goal with
+  | E : fld ?b rd_u32 ?mv ?bs = Some _ |- context [f_u32 ?b ?cur (mkS ?bs None)] =>
+      rewrite (fld_u32_ok b mv cur bs _ _ E
+                 ltac:(first [exact (mr_layer _ _ R)|exact (mr_dtype _ _ R)|exact (mr_tlayer _ _ R)|exact (mr_ttype _ _ R)]))
+  | E : fld ?b rd_uint ?mv ?bs = Some _ |- context [f_uint ?b ?cur (mkS ?bs None)] =>
+      rewrite (fld_uint_ok b mv cur bs _ _ E
+                 ltac:(first [exact (mr_w _ _ R)|exact (mr_h _ _ R)|exact (mr_hw _ _ R)|exact (mr_rad _ _ R)]))
+  | E1 : pos_fld ?bx ?a ?cx ?bs = Some (?x, ?r1), E2 : pos_fld ?by_ ?a ?cy ?r1 = Some _
+    |- context [f_xy ?bx ?by_ _ _ (mkS ?bs None)] =>
+      rewrite (f_xy_ok bx by_ a (cx, cy) bs _ _ _ _ E1 E2)
+  | H : f_rep ?b ?c (mkS ?bs None) = _ |- context [f_rep ?b ?c (mkS ?bs None)] => rewrite H
+  end;
+  cbv beta iota.
+Ltac start_rec R :=
+  unfold rbind, lift, rret, tb; unfold bit in *;
+  rewrite ?(mr_gpos _ _ R), ?(mr_tpos _ _ R), ?(mr_ppos _ _ R), ?(mr_abs _ _ R).
+
+Lemma poly_points_eq x y pts :
+  map (fun v => padd v (x, y)) ((0, 0)%Z :: pts) = map (padd (x, y)) ((0, 0)%Z :: pts).
+Proof. apply map_ext. intros a. apply padd_comm. Qed.
+
+Lemma rd_polygon_ok m q info bs e m' bs' :
+  modal_rel m q -> cov_polygon m (info :: bs) = Some (e, m', bs') ->
+  exists q', m_polygon q info (mkS bs None) = ROk (welem e, q') (mkS bs' None) /\ modal_rel m' q'.
+Proof.
+  intros R H. unfold cov_polygon in H. cbn [rd_byte obnd] in H.
+  destruct (bit info 7 || bit info 6); [discriminate|].
+  inv1 H. inv1 H. inv1 H. inv1 H. inv1 H. inv_triple H. injection H as <- <- <-.
+  destruct (rep_fld_ok _ _ _ _ _ _ _ E4 (mr_rep _ _ R)) as (cur' & Hrep & Hrel).
+  exists (with_poly (with_geom q n n0 (z, z0) (r_w q) (r_h q) cur') l1). split.
+  - unfold m_polygon. start_rec R. fstep R. fstep R.
+    rewrite (f_plist_ok _ _ _ _ _ _ _ E1 (mr_poly _ _ R)). fstep R. fstep R. unfold welem. cbn [view_elem elem_points]. rewrite poly_points_eq. reflexivity.
+  - destruct R. constructor; cbn; auto.
+Qed.
+
+Lemma rd_circle_ok m q info bs e m' bs' :
+  modal_rel m q -> cov_circle m (info :: bs) = Some (e, m', bs') ->
+  exists q', m_circle q info (mkS bs None) = ROk (welem e, q') (mkS bs' None) /\ modal_rel m' q'.
+Proof.
+  intros R H. unfold cov_circle in H. cbn [rd_byte obnd] in H.
+  destruct (bit info 7 || bit info 6); [discriminate|].
+  inv1 H. inv1 H. inv1 H. inv1 H. inv1 H. inv_triple H. injection H as <- <- <-.
+  destruct (rep_fld_ok _ _ _ _ _ _ _ E4 (mr_rep _ _ R)) as (cur' & Hrep & Hrel).
+  exists (with_rad (with_geom q n n0 (z, z0) (r_w q) (r_h q) cur') n1). split.
+  - unfold m_circle. start_rec R. fstep R. fstep R. fstep R. fstep R. fstep R. reflexivity.
+  - destruct R. constructor; cbn; auto.
+Qed.
+
+Lemma trap_pts_eq vert x y w h da db :
+  trap_pts vert (x, y) w h da db = map (padd (x, y)) (trap_points vert (Z.of_N w) (Z.of_N h) da db).
+Proof.
+  unfold trap_pts, trap_points, padd. cbn [fst snd].
+  destruct vert; cbn [map fst snd]; destruct (da <? 0)%Z; destruct (db <? 0)%Z;
+    repeat match goal with
+           | |- _ :: _ = _ :: _ => apply (f_equal2 (@cons pt))
+           | |- (_, _) = (_, _) => apply (f_equal2 (@pair Z Z))
+           end; try reflexivity; lia.
+Qed.
+
+Lemma rd_trapezoid_ok code m q info bs e m' bs' :
+  modal_rel m q -> cov_trapezoid code m (info :: bs) = Some (e, m', bs') ->
+  exists q', m_trapezoid code q info (mkS bs None) = ROk (welem e, q') (mkS bs' None) /\ modal_rel m' q'.
+Proof.
+  intros R H. unfold cov_trapezoid in H. cbn [rd_byte obnd] in H.
+  inv1 H. inv1 H. inv1 H. inv1 H. inv1 H. inv1 H. inv1 H. inv1 H. inv_triple H. injection H as <- <- <-.
+  destruct (rep_fld_ok _ _ _ _ _ _ _ E7 (mr_rep _ _ R)) as (cur' & Hrep & Hrel).
+  exists (with_geom q n n0 (z1, z2) n1 n2 cur'). split.
+  - unfold m_trapezoid. start_rec R. fstep R. fstep R. fstep R. fstep R.
+    rewrite (f_delta_ok _ _ _ _ E3). cbv beta iota. rewrite (f_delta_ok _ _ _ _ E4).
+    fstep R. fstep R. unfold welem. cbn [view_elem elem_points]. rewrite trap_pts_eq. reflexivity.
+  - apply with_geom_rel; cbn; auto.
+Qed.
+
+(* ---- PATH *)
+Lemma ext_fld_ok code hw mv cur bs v r :
+  ext_fld code hw mv bs = Some (v, r) -> orel mv cur -> f_ext code hw cur (mkS bs None) = (v, mkS r None).
+Proof.
+  unfold ext_fld, f_ext. destruct code as [|p]; [|destruct p as [p|p|]; [|destruct p as [p|p|]|]].
+  - destruct mv as [a|]; [|discriminate]. intros [= <- <-] H. cbn in H. subst. reflexivity.
+  - intros H _. apply s_int_ok. exact H.
+  - intros H _. apply s_int_ok. exact H.
+  - intros H _. apply s_int_ok. exact H.
+  - intros [= <- <-] _. reflexivity.
+  - intros [= <- <-] _. reflexivity.
+Qed.
+Lemma path_points_eq x y pts :
+  (x, y) :: map (fun v => padd (x, y) v) pts = map (padd (x, y)) ((0, 0)%Z :: pts).
+Proof. cbn [map]. f_equal. unfold padd. cbn [fst snd]. rewrite !Z.add_0_r. reflexivity. Qed.
+
+Lemma rd_path_ok m q info bs e m' bs' :
+  modal_rel m q -> cov_path m (info :: bs) = Some (e, m', bs') ->
+  exists q', m_path q info (mkS bs None) = ROk (welem e, q') (mkS bs' None) /\ modal_rel m' q'.
+Proof.
+  intros R H. unfold cov_path in H. cbn [rd_byte obnd] in H.
+  inv1 H. inv1 H. inv1 H. inv_triple H. inv1 H.
+  destruct (negb (nonempty l3)) eqn:Ene; [discriminate|].
+  inv1 H. inv1 H. inv_triple H. injection H as <- <- <-.
+  destruct (rep_fld_ok _ _ _ _ _ _ _ E6 (mr_rep _ _ R)) as (cur' & Hrep & Hrel).
+  exists (with_path (with_geom q n n0 (z1, z2) (r_w q) (r_h q) cur') l3 n1 z z0). split.
+  - unfold m_path. start_rec R. fstep R. fstep R. fstep R.
+    assert (He : m_path_ext (N.testbit info 7) n1 (r_exs q) (r_exe q) (mkS l1 None) = ROk (z, z0) (mkS l2 None)).
+    { unfold m_path_ext. destruct (N.testbit info 7).
+      - destruct l1 as [|sch t1]; cbn [rd_byte obnd] in E2; [discriminate|].
+        destruct (16 <=? sch); [discriminate|].
+        destruct (ext_fld (N.land (N.shiftr sch 2) 3) n1 (g_exs (m_g m)) t1) as [[u ru]|] eqn:Eu; cbn [obnd] in E2; [|discriminate].
+        destruct (ext_fld (N.land sch 3) n1 (g_exe (m_g m)) ru) as [[v rv]|] eqn:Ev; cbn [obnd] in E2; [|discriminate].
+        injection E2 as <- <- <-. unfold rbind, lift, rret, rd1. cbn [s_bs s_err].
+        rewrite (ext_fld_ok _ _ _ _ _ _ _ Eu (mr_exs _ _ R)). cbv beta iota.
+        rewrite (ext_fld_ok _ _ _ _ _ _ _ Ev (mr_exe _ _ R)). reflexivity.
+      - pose proof (mr_exs _ _ R) as H1. pose proof (mr_exe _ _ R) as H2.
+        destruct (g_exs (m_g m)); [|discriminate]. destruct (g_exe (m_g m)); [|discriminate].
+        injection E2 as <- <- <-. cbn in H1, H2. rewrite H1, H2. reflexivity. }
+    rewrite He. cbv beta iota. rewrite (f_plist_ok _ _ _ _ _ _ _ E3 (mr_path _ _ R)).
+    fstep R. destruct l3 as [|p0 l3]; [discriminate|]. fstep R.
+    unfold welem. cbn [view_elem elem_points]. rewrite path_points_eq. reflexivity.
+  - destruct R. constructor; cbn; auto.
+Qed.
+
+(* ---- TEXT *)
+Lemma rd_text_ok m q info bs e m' bs' :
+  modal_rel m q -> cov_text m (info :: bs) = Some (e, m', bs') ->
+  exists q', m_text q info (mkS bs None) = ROk (welem e, q') (mkS bs' None) /\ modal_rel m' q'.
+Proof.
+  intros R H. unfold cov_text in H. cbn [rd_byte obnd] in H.
+  destruct (bit info 7); [discriminate|].
+  inv1 H. inv1 H. inv1 H. inv1 H. inv1 H. inv_triple H. injection H as <- <- <-.
+  destruct (rep_fld_ok _ _ _ _ _ _ _ E4 (mr_rep _ _ R)) as (cur' & Hrep & Hrel).
+  exists (with_text q (Some n) n0 n1 (z, z0) cur'). split.
+  - unfold m_text. start_rec R. rewrite (f_name_ok _ _ _ _ _ _ _ E (mr_tstr _ _ R)).
+    fstep R. fstep R. fstep R. fstep R. reflexivity.
+  - destruct R. constructor; cbn; auto.
+Qed.
+
+(* ---- PLACEMENT *)
+Lemma f_oreal_ok (b : bool) bs v r :
+  (if b then let? '(x, r0) := cov_real bs in Some (Some x, r0) else Some (None, bs)) = Some (v, r) ->
+  f_oreal b (mkS bs None) = (v, mkS r None).
+Proof.
+  unfold f_oreal. destruct b.
+  - destruct (cov_real bs) as [[x r0]|] eqn:E; cbn [obnd]; [|discriminate]. intros [= <- <-].
+    rewrite (s_real_ok _ _ _ E). reflexivity.
+  - intros [= <- <-]. reflexivity.
+Qed.
+
+Lemma rd_placement_ok code m q info bs e m' bs' :
+  modal_rel m q -> cov_placement code m (info :: bs) = Some (e, m', bs') ->
+  exists q', m_placement code q info (mkS bs None) = ROk (welem e, q') (mkS bs' None) /\ modal_rel m' q'.
+Proof.
+  intros R H. unfold cov_placement in H. cbn [rd_byte obnd] in H.
+  inv1 H. inv1 H. inv1 H. inv1 H. inv_triple H. injection H as <- <- <-.
+  destruct (rep_fld_ok _ _ _ _ _ _ _ E3 (mr_rep _ _ R)) as (cur' & Hrep & Hrel).
+  exists (with_place q (Some n) (z, z0) cur'). split.
+  - unfold m_placement. start_rec R. rewrite (f_name_ok _ _ _ _ _ _ _ E (mr_pcell _ _ R)). cbv beta iota.
+    assert (Ht : m_place_tr code info (mkS l None) = ROk p (mkS l0 None)).
+    { unfold m_place_tr. destruct (code =? 17); [injection E0 as <- <-; reflexivity|].
+      unfold rbind, lift, rret, tb.
+      destruct (if N.testbit info 2 then let? '(v, r) := cov_real l in Some (Some v, r) else Some (None, l))
+        as [[mag r1]|] eqn:Em; cbn [obnd] in E0; [|discriminate].
+      destruct (if N.testbit info 1 then let? '(v, r) := cov_real r1 in Some (Some v, r) else Some (None, r1))
+        as [[ang r2]|] eqn:Ea; cbn [obnd] in E0; [|discriminate].
+      injection E0 as <- <-. rewrite (f_oreal_ok _ _ _ _ Em). cbv beta iota. rewrite (f_oreal_ok _ _ _ _ Ea). reflexivity. }
+    rewrite Ht. fstep R. fstep R. reflexivity.
+  - destruct R. constructor; cbn; auto.
+Qed.
+
+(* ---- CTRAPEZOID *)
+Lemma ctrap_table_eq : GV.Generated.ctrap_table = spec_ctrap_table.
+Proof. vm_compute. reflexivity. Qed.
+
+Lemma lt26_cases ty : ty < 26 ->
+  In ty [0;1;2;3;4;5;6;7;8;9;10;11;12;13;14;15;16;17;18;19;20;21;22;23;24;25].
+Proof.
+  intros H. destruct ty as [|p]; [cbn; auto|].
+  do 5 (destruct p as [p|p|]; try (cbn; tauto)); exfalso; lia.
+Qed.
+
+Lemma ctrap_lookup_spec ty : ty < 26 -> ctrap_lookup GV.Generated.ctrap_table ty = Some (spec_ctrap_vertices ty).
+Proof.
+  intros H. rewrite ctrap_table_eq. apply lt26_cases in H. cbn [In] in H.
+  repeat (destruct H as [<-|H]; [vm_compute; reflexivity|]). destruct H.
+Qed.
+
+Lemma dim_fld_ok b uses mv cur bs v r :
+  dim_fld b uses mv bs = Some (v, r) -> orel mv cur ->
+  exists vr, f_uint b cur (mkS bs None) = (vr, mkS r None) /\ (uses = true -> vr = v).
+Proof.
+  unfold dim_fld, f_uint. destruct b.
+  - intros H _. exists v. split; [apply s_uint_ok; exact H|auto].
+  - destruct uses.
+    + destruct mv as [a|]; [|discriminate]. intros [= <- <-] H. cbn in H. subst. eauto.
+    + intros [= <- <-] _. exists cur. split; [reflexivity|discriminate].
+Qed.
+
+Lemma ctrap_eval_eq ty wr hr w0 h0 : ty < 26 ->
+  (ctrap_uses_w ty = true -> wr = w0) -> (ctrap_uses_h ty = true -> hr = h0) ->
+  map (lfpt_eval (Z.of_N wr) (Z.of_N hr)) (spec_ctrap_vertices ty) =
+  map (lfpt_eval (Z.of_N (ctrap_w ty w0 h0)) (Z.of_N (ctrap_h ty w0 h0))) (spec_ctrap_vertices ty).
+Proof.
+  intros H Hw Hh. apply lt26_cases in H. cbn [In] in H.
+  repeat (destruct H as [<-|H];
+          [ try (specialize (Hw eq_refl)); try (specialize (Hh eq_refl)); subst;
+            cbv [spec_ctrap_vertices htrap vtrap b2z map lfpt_eval lf_eval fst snd ctrap_w ctrap_h
+                 N.eqb N.leb N.compare Pos.eqb Pos.compare Pos.compare_cont andb orb];
+            repeat match goal with
+                   | |- _ :: _ = _ :: _ => apply (f_equal2 (@cons pt))
+                   | |- (_, _) = (_, _) => apply (f_equal2 (@pair Z Z))
+                   end; try reflexivity; lia |]).
+  destruct H.
+Qed.
+
+Lemma ctrap_dim_eq ty wr hr w0 h0 : ty < 26 -> ty <> 25 ->
+  (ctrap_uses_w ty = true -> wr = w0) -> (ctrap_uses_h ty = true -> hr = h0) ->
+  ctrap_dim ty wr hr = (ctrap_w ty w0 h0, ctrap_h ty w0 h0).
+Proof.
+  intros H H25 Hw Hh. apply lt26_cases in H. cbn [In] in H.
+  repeat (destruct H as [<-|H];
+          [ try (specialize (Hw eq_refl)); try (specialize (Hh eq_refl)); subst; try congruence; reflexivity |]).
+  destruct H.
+Qed.
+
+Lemma rd_ctrapezoid_ok any25 m q info bs e m' bs' :
+  modal_rel m q -> cov_ctrapezoid_gen any25 m (info :: bs) = Some (e, m', bs') ->
+  exists q', m_ctrapezoid q info (mkS bs None) = ROk (welem e, q') (mkS bs' None) /\
+             (any25 = false -> modal_rel m' q').
+Proof.
+  intros R H. unfold cov_ctrapezoid_gen in H. cbn [rd_byte obnd] in H.
+  inv1 H. inv1 H. inv1 H.
+  destruct ((26 <=? n1) || (negb any25 && (n1 =? 25))) eqn:Ety; [discriminate|].
+  apply orb_false_elim in Ety. destruct Ety as [Ety E25]. apply N.leb_gt in Ety.
+  inv1 H. inv1 H. inv1 H. inv1 H. inv_triple H. injection H as <- <- <-.
+  destruct (rep_fld_ok _ _ _ _ _ _ _ E6 (mr_rep _ _ R)) as (cur' & Hrep & Hrel).
+  destruct (dim_fld_ok _ _ _ _ _ _ _ E2 (mr_w _ _ R)) as (wr & Hwr & Hw).
+  destruct (dim_fld_ok _ _ _ _ _ _ _ E3 (mr_h _ _ R)) as (hr & Hhr & Hh).
+  exists (with_ctype (with_geom q n n0 (z, z0) (fst (ctrap_dim n1 wr hr)) (snd (ctrap_dim n1 wr hr)) cur') n1). split.
+  - unfold m_ctrapezoid. start_rec R. fstep R. fstep R.
+    rewrite (f_ctype_ok _ _ _ _ _ _ E1 (mr_ctype _ _ R)). cbv beta iota.
+    rewrite Hwr. cbv beta iota. rewrite Hhr. fstep R. fstep R.
+    destruct (ctrap_dim n1 wr hr) as [w1 h1]. cbn [fst snd]. unfold welem. cbn [view_elem elem_points].
+    unfold ctrap_pts. rewrite (ctrap_lookup_spec _ Ety).
+    rewrite <- (map_map (lfpt_eval (Z.of_N wr) (Z.of_N hr)) (padd (z, z0))).
+    rewrite (ctrap_eval_eq n1 wr hr n2 n3 Ety Hw Hh). rewrite map_map. reflexivity.
+  - intros ->. cbn [negb andb] in E25. apply N.eqb_neq in E25.
+    rewrite (ctrap_dim_eq n1 wr hr n2 n3 Ety E25 Hw Hh). cbn [fst snd].
+    destruct R. constructor; cbn; auto.
+Qed.
